@@ -90,7 +90,7 @@ def handle : Handler
       | .error e => some (showErr e)
       | .ok none => some "ok nan"
       | .ok (some r) => some ("ok " ++ showRat r)) "bad-args"
-  | "c11.core", [n, m, ip, ix] => some <| Option.getD (do
+  | "c11.core", [n, m, ip, ix, _dt] => some <| Option.getD (do
       let n ← n.toNat?
       let m ← m.toNat?
       let ip ← natList? ip
@@ -148,9 +148,28 @@ def handle : Handler
       | some want =>
         if x == "nan" then some ("fails want=" ++ showRat want) else do
         let x ← rat? x
-        -- float64 tolerance of DESIGN section 8: 1e-9 (1 + |want|)
-        let tol : Rat := (1 + ratAbs want) / 1000000000
+        -- one float64 division of two exactly known integers: 1e-12 (1 + |want|) (DESIGN section 8 allows 1e-9;
+        -- two distinct values of 3t/T with T <= 3e4 can be 1e-9 apart)
+        let tol : Rat := (1 + ratAbs want) / 1000000000000
         some (if ratAbs (x - want) ≤ tol then "holds" else "fails want=" ++ showRat want)) "bad-args"
+  -- clustering coefficient of a graph given by its triangle count and degree sequence (large hubs)
+  | "c11.spec_cc_deg", [t, degs, x] => some <| Option.getD (do
+      let t ← t.toNat?
+      let degs ← natList? degs
+      match clusteringFromDegrees t degs with
+      | none => some (if x == "nan" then "holds" else "fails want=nan")
+      | some want =>
+        if x == "nan" || x == "inf" then some ("fails want=" ++ showRat want) else do
+        let x ← rat? x
+        let tol : Rat := (1 + ratAbs want) / 1000000000000
+        some (if ratAbs (x - want) ≤ tol then "holds" else "fails want=" ++ showRat want)) "bad-args"
+  -- a count known in closed form (hub graphs: one triangle per extra edge)
+  | "c11.spec_closed", [want, got] => some <| Option.getD (do
+      let want ← want.toNat?
+      let got ← got.toNat?
+      some (if want == got then "holds" else s!"fails want={want}")) "bad-args"
+  -- an in-scope input on which the implementation raised: always a failure of the property
+  | "c11.spec_refused", _ => some "fails raised-on-an-in-scope-input"
   -- contract of external code: `np.argsort` returned a permutation of the nodes
   | "c11.contract_perm", [n, perm] => some <| Option.getD (do
       let n ← n.toNat?
